@@ -157,11 +157,23 @@ func (b *exampleBuilder) buildExampleForMixedValueNode(node *internalSchema.Mixe
 		return nil, errors.ErrLoader
 	}
 
-	typeName := tt[0]
-	if !bytes.Bytes(typeName).IsUserTypeName() {
-		return node.Value(), nil
-	}
+	// The first alternative which has an example is used: an alternative that
+	// only leads back into a type being processed (`@node | @leaf` inside @node)
+	// has none, the next one may terminate the recursion.
+	for _, typeName := range tt {
+		if !bytes.Bytes(typeName).IsUserTypeName() {
+			return node.Value(), nil
+		}
 
+		ex, err := b.buildExampleForUserType(typeName)
+		if err != nil || ex != nil {
+			return ex, err
+		}
+	}
+	return nil, nil
+}
+
+func (b *exampleBuilder) buildExampleForUserType(typeName string) ([]byte, error) {
 	if cnt := b.processedTypes[typeName]; cnt > 1 {
 		// Do not process already processed type more than twice.
 		return nil, nil
